@@ -18,6 +18,8 @@ checks = sys.argv[3:] or [PROP]
 rnd = {"": "", "b": "2", "c": "4", "d": "5", "e": "6", "f": "7", "g": "8", "n": "n"}[ID[3:]]      # Cxxb rounds 2/3, Cxxc round 4, Cxxn property-preserving variations
 src = "/tmp/seeded_out%s/%s" % (rnd, ID)
 wt = "/tmp/wt%s/%s" % (rnd, ID)
+if not os.path.exists(src) and rnd == "8":      # second half of round 8
+    src, wt = "/tmp/seeded_out9/%s" % ID, "/tmp/wt9/%s" % ID
 dst = "/verif/seeded/%s" % ID
 
 
